@@ -8,7 +8,7 @@ import fcntl, hashlib, json, os, random, re, shutil, subprocess, sys, time
 
 VERIF = os.path.dirname(os.path.dirname(os.path.abspath(__file__)))
 REPO = os.environ.get("VERIF_REPO", "/repo")
-BUILD = os.path.join(VERIF, ".build")
+BUILD = os.environ.get("VERIF_BUILD") or os.path.join(VERIF, ".build")  # VERIF_REPO/VERIF_BUILD: mutation experiments
 SG = os.path.join(BUILD, "sg")
 HB = os.path.join(BUILD, "harness")
 SPEC = os.path.join(VERIF, "spec")
